@@ -14,6 +14,14 @@ CLAIMED = {
         "Listed known findings (sequence->GenericSet fall-back, sparse Bytes) are excluded by input class and still reported.",
         "L<=3, offset in [-2,2], probe index in [-4,6], <=1 prior operation; frozen replaced by a list model; array/dict/relation "
         "dispatch harnesses are separate (see DESIGN.md §4 C01)"),
+    "C02": (
+        "Bounded symbolic execution of every Equal and Hash implementation: symmetry/reflexivity of Equal and Equal => equal Hash "
+        "(for a symbolic seed, hash primitives uninterpreted) on all pairs of an 18-kind universe, and 12 pairs of construction "
+        "paths that reach one denotation (constructor vs set builder, duplicates offered to the builder, attribute order, "
+        "without-then-rebuild, join result vs literal) must be Equal both ways, hash alike, count alike, collapse to one set "
+        "member and be unordered by <; SMT-decided per path, counterexamples replayed natively (with the real hash functions).",
+        "universe as C06; cells small symbolic integers/chars; frozen's own use of Hash is modelled away (the obligation Equal => "
+        "same Hash that arr.ai owes it is what is checked); printing identically is checked only through C12"),
     "C03": (
         "Bounded symbolic execution of the real String/Bytes with/Without code (go/ssa) with real slice aliasing: for every base "
         "content, offset and operation argument within the bound, deriving two values from one parent leaves the parent and the "
